@@ -226,13 +226,13 @@ impl FileState {
 // closure #1 of CurrentFileStates::take_blob: the entry of one path is taken OUT of the table (take_blob applies it to every path,
 // through Blob::from_paths -- iterator map/collect over an FnMut, outside Verus' reach: R4)
 //@ extract current.rs impl /CurrentFileStates<SystemType>$/ fn take_blob closure 1
-//@ props C18 C07
+//@ props C18 C07 C04
 //@ sig fn take_one<SystemType: System>(this: &mut CurrentFileStates<SystemType>, path: &str) -> (res: FileState)
 //@ rewrite * /self\.inside\.file_states\.(remove|get)\(path\)/ => map_\1_str(&mut this.inside.file_states, path)
 //@ spec
     ensures
         // what a rule's thread is handed is no longer remembered by the table: a rule that then fails (its blob is not handed back)
-        // leaves nothing remembered about its targets, whatever it did to them                                       //# O-H-take-forgets [C18,C07]
+        // leaves nothing remembered about its targets, whatever it did to them                                       //# O-H-take-forgets [C18,C07,C04]
         !final(this).inside.file_states@.contains_key(skey(path@)),
         final(this).inside.file_states@ == old(this).inside.file_states@.remove(skey(path@)), final(this).path == old(this).path,
         // the entry handed out is the remembered one, or the empty state                                              //# O-H-take-entry [C18]
@@ -287,6 +287,8 @@ spec fn own_dirs(d: Seq<char>) -> Set<Seq<char>> { set![d, d + "/cache"@, d + "/
         old(w).dirs.subset_of(final(w).dirs), final(w).dirs.subset_of(old(w).dirs.union(own_dirs(directory@))),
         forall|x: Seq<char>| #![trigger final(w).files[x]] #![trigger final(w).files.contains_key(x)] x != directory@ + "/current_file_states"@ && x != directory@ + "/current_file_states"@ + tmp_suffix() ==>
             (old(w).files.contains_key(x) == final(w).files.contains_key(x) && (old(w).files.contains_key(x) ==> old(w).files[x] == final(w).files[x])),
+        // on success ruler's three directories exist -- whichever of them were there before (a kill between two mkdirs leaves some)   //# O-H-init-dirs [C11,C05]
+        res is Ok ==> own_dirs(directory@).subset_of(final(w).dirs),
         // the state left by a kill is never fatal: whenever the table on disk decodes (STATE_OK), it is accepted                    //# O-H-init-not-fatal [C11]
         !(res matches Err(InitDirectoryError::FailedToReadCurrentFileStates(CurrentFileStatesError::CannotInterpretFile(_)))),
         res matches Ok(e) ==> e.cache.path@ == directory@ + "/cache"@ && e.history.path@ == directory@ + "/history"@ && e.current_file_states.path@ == directory@ + "/current_file_states"@,
